@@ -70,6 +70,7 @@ class WildGen:
             scoped=True,               # T::Value at depth 0
             scoped_deep=True,          # T::Value inside template arguments (D45, repaired)
             scoped_substring=True,     # scoped name containing the parameter's spelling (T::Type) (D2, repaired)
+            scoped_member_templated=True,   # T::Rebind<int> (D54, repaired)
             scoped_templated=True,     # scoped use of a parameter bound to a templated concrete type (D46, repaired)
             this_use=0.0, this_in_args=True,    # D3 (repaired): vector<This>
             this_in_base=True,         # D38 (repaired): class X : B<This>
@@ -131,7 +132,7 @@ class WildGen:
         r = self.r
         const = qualifiers and r.random() < 0.3
         marker = r.choice(['', '', '', '*', '@', '&']) if qualifiers else ''
-        occ = self._occurrence(depth, const, marker)
+        occ = self._occurrence(depth, const, marker, allow_templ)
         if occ is not None:
             return occ
         if allow_templ and self.f['templated_types'] and depth < self.k.type_depth and r.random() < 0.35:
@@ -143,7 +144,7 @@ class WildGen:
         ns, name = self.typename()
         return S.T(name, ns, (), const, marker)
 
-    def _occurrence(self, depth, const, marker):
+    def _occurrence(self, depth, const, marker, allow_templ=True):
         r = self.r
         f = self.f
         if self.scope_params and r.random() < f['param_use']:
@@ -158,7 +159,15 @@ class WildGen:
                 if depth > 0 and inner in self.scope_params and not f['qualified_param_name_deep']:
                     inner = 'Q'      # T::TT inside template arguments with TT another parameter in scope: D49
                 extra = (self.r.choice(['Sub', 'detail']),) if r.random() < 0.2 else ()
-                return S.T(inner, (p,) + extra, (), const, marker)
+                targs = ()
+                if f['scoped_member_templated'] and allow_templ and r.random() < 0.2 and depth < self.k.type_depth:
+                    # the member is itself a template-id: T::Rebind<int>, T::Map<T, U> (D54, repaired); `This` is not
+                    # used inside its arguments (the scoped rewrite does not look for it there)
+                    hold = self.in_class
+                    self.in_class = False
+                    targs = tuple(self.type(depth + 1, qualifiers=False) for _ in range(r.choice([1, 1, 2])))
+                    self.in_class = hold
+                return S.T(inner, (p,) + extra, targs, const, marker)
             if depth <= f['param_depth']:
                 return S.T(p, (), (), const, marker)
         if self.in_class and r.random() < f['this_use']:
